@@ -160,4 +160,55 @@ theorem parse_unixAbstract (pid : Str) (a : Str) (ha : plain a) (path : Option S
   simp [buildEndpoint, C09Endpoints.unixKind, C09Endpoints.unixPathRules, unixPath, dictGet, dictSet, kAbstract, valStr,
     pathOf, SpecEntry.endpoint, bind, Except.bind, pure, Except.pure]
 
+theorem parse_tcp (pid : Str) (h : Str) (ds : List (Fin 10)) (hh : plain h) (hne : ds ≠ []) (path : Option Str) :
+    parseEntry pid (SpecEntry.tcp h ds).render path = .ok (some (SpecEntry.tcp h ds).endpoint, path) := by
+  have hsep : C09Endpoints.componentSep = ',' := by decide
+  have hd := digits_plain ds
+  have hA : ',' ∉ ['t','c','p',':'] ++ (kHost ++ '=' :: h) := by simp [kHost, hh.2.1]
+  have hB : ',' ∉ kPort ++ '=' :: ds.map digitChar := by
+    simp only [List.mem_append, List.mem_cons, not_or]
+    exact ⟨by simp [kPort], by decide, hd.2.1⟩
+  have hsplit : splitOn ',' (SpecEntry.tcp h ds).render =
+      [['t','c','p',':'] ++ (kHost ++ '=' :: h), kPort ++ '=' :: ds.map digitChar] := by
+    show splitOn ',' (['t','c','p',':'] ++ (kHost ++ '=' :: h) ++ ',' :: (kPort ++ '=' :: ds.map digitChar)) = _
+    rw [splitOn_append_sep ',' _ _ hA, splitOn_no_sep ',' _ hB]
+  have c1 := component_prefixed ['t','c','p',':'] ['t','c','p'] 4 none kHost h none []
+    (match_tcp _) rfl (by simp [kHost]) hh.2.2
+  have c2 := component_plain kPort (ds.map digitChar) (some ['t','c','p']) (dictSet kHost (.str h) [])
+    (match_port _) (by simp [kPort]) hd.2.2
+  simp only [parseEntry, hsep, hsplit, components, c1, c2, bind, Except.bind]
+  simp [buildEndpoint, C09Endpoints.unixKind, C09Endpoints.tcpKind, C09Endpoints.tcpHostKey, C09Endpoints.tcpPortKey,
+    dictGet, dictSet, kHost, kPort, valStr, pyInt_digits ds hne, SpecEntry.endpoint, bind, Except.bind]
+
+theorem parse_nonceTcp (pid : Str) (h : Str) (ds : List (Fin 10)) (f : Str) (hh : plain h) (hne : ds ≠ []) (hf : plain f)
+    (path : Option Str) :
+    parseEntry pid (SpecEntry.nonceTcp h ds f).render path = .ok (some (SpecEntry.nonceTcp h ds f).endpoint, path) := by
+  have hsep : C09Endpoints.componentSep = ',' := by decide
+  have hd := digits_plain ds
+  have hA : ',' ∉ ['n','o','n','c','e','-','t','c','p',':'] ++ (kHost ++ '=' :: h) := by simp [kHost, hh.2.1]
+  have hB : ',' ∉ kPort ++ '=' :: ds.map digitChar := by
+    simp only [List.mem_append, List.mem_cons, not_or]
+    exact ⟨by simp [kPort], by decide, hd.2.1⟩
+  have hC : ',' ∉ kNoncefile ++ '=' :: f := by
+    simp only [List.mem_append, List.mem_cons, not_or]
+    exact ⟨by simp [kNoncefile], by decide, hf.2.1⟩
+  have hsplit : splitOn ',' (SpecEntry.nonceTcp h ds f).render =
+      [['n','o','n','c','e','-','t','c','p',':'] ++ (kHost ++ '=' :: h), kPort ++ '=' :: ds.map digitChar,
+       kNoncefile ++ '=' :: f] := by
+    show splitOn ',' (['n','o','n','c','e','-','t','c','p',':'] ++ (kHost ++ '=' :: h) ++
+      ',' :: (kPort ++ '=' :: ds.map digitChar) ++ ',' :: (kNoncefile ++ '=' :: f)) = _
+    rw [List.append_assoc, List.cons_append, splitOn_append_sep ',' _ _ hA, splitOn_append_sep ',' _ _ hB,
+      splitOn_no_sep ',' _ hC]
+  have c1 := component_prefixed ['n','o','n','c','e','-','t','c','p',':'] ['t','c','p'] 10 (some kNonceTcp) kHost h none []
+    (match_nonce _) rfl (by simp [kHost]) hh.2.2
+  have c2 := component_plain kPort (ds.map digitChar) (some ['t','c','p'])
+    (dictSet kHost (.str h) (dictSet kNonceTcp Val.true [])) (match_port _) (by simp [kPort]) hd.2.2
+  have c3 := component_plain kNoncefile f (some ['t','c','p'])
+    (dictSet kPort (.str (ds.map digitChar)) (dictSet kHost (.str h) (dictSet kNonceTcp Val.true [])))
+    (match_noncefile _) (by simp [kNoncefile]) hf.2.2
+  simp only [parseEntry, hsep, hsplit, components, c1, c2, c3, bind, Except.bind]
+  simp [buildEndpoint, C09Endpoints.unixKind, C09Endpoints.tcpKind, C09Endpoints.tcpHostKey, C09Endpoints.tcpPortKey,
+    dictGet, dictSet, kHost, kPort, kNoncefile, kNonceTcp, valStr, pyInt_digits ds hne, SpecEntry.endpoint, bind,
+    Except.bind]
+
 end Txdbus.Client.Endpoints
